@@ -288,6 +288,7 @@ fn quorumwaiter(o: &Opts) {
 // ---------------------------------------------------------------- C16: Store
 fn store_mode(o: &Opts) {
     use std::cell::RefCell; use std::rc::Rc;
+    std::panic::set_hook(Box::new(|_| {}));
     let mut e = Emit::new("StoreDefs CorrComp CorrStore");
     let mut seen = std::collections::HashSet::new();
     for k in 0..o.cases {
@@ -299,7 +300,11 @@ fn store_mode(o: &Opts) {
         let path = format!("{}/db_store_{}_{}", o.out, o.seed, k);
         let _ = std::fs::remove_dir_all(&path);
         let local = tokio::task::LocalSet::new();
-        let (cmds, outs): (Vec<String>, Vec<String>) = local.block_on(&rt, async {
+        // a panic inside the store task surfaces as a panic of the handle that next talks to it: recorded, not fatal for the harness
+        let shared_cmds: Rc<RefCell<Vec<String>>> = Rc::new(RefCell::new(vec![]));
+        let sc = shared_cmds.clone();
+        let attempt = std::panic::catch_unwind(std::panic::AssertUnwindSafe(|| local.block_on(&rt, async {
+            let shared_cmds = sc;
             let mut handles: Vec<store::Store> = vec![];
             let s0 = store::Store::new(&path).unwrap();
             for _ in 0..3 { handles.push(s0.clone()); }
@@ -336,18 +341,29 @@ fn store_mode(o: &Opts) {
                     for _ in 0..3 { handles.push(s1.clone()); }
                     cmds.push("Reopen".into());
                 }
+                *shared_cmds.borrow_mut() = cmds.clone();
                 settle().await;
                 outs.push(coq_list(&done.borrow_mut().drain(..).collect::<Vec<_>>()));
             }
             for (_, t) in tasks.drain(..) { t.abort(); }
             handles.clear(); settle().await;
             (cmds, outs)
-        });
+        })));
+        let (cmds, outs, panicked): (Vec<String>, Vec<String>, bool) = match attempt {
+            Ok((c, o)) => (c, o, false),
+            Err(_) => { let c = shared_cmds.borrow().clone(); (c, vec![], true) }
+        };
+        if panicked { e.stat("impl_panicked", 1); }
         let _ = std::fs::remove_dir_all(&path);
         e.stat("commands", cmds.len() as u64);
         for c in &cmds { e.stat(&format!("cmd:{}", c.split(' ').next().unwrap()), 1); }
         if cmds.iter().any(|c| c.starts_with("NotifyRead")) && seen.insert(cmds.join(";")) { e.stat("distinct_nontrivial", 1); }
-        e.case(k, "", &format!("store_case {} {}", coq_list(&cmds), coq_list(&outs)), json!({"case": k, "commands": cmds}));
+        if panicked {
+            // the store (or a handle) panicked: no model comparison possible; the three flags are all 0 and the commands issued so far are the replay
+            e.case(k, "", "verdict_of [0; 0; 0]", json!({"case": k, "commands": cmds, "impl_panicked": true}));
+        } else {
+            e.case(k, "", &format!("store_case {} {}", coq_list(&cmds), coq_list(&outs)), json!({"case": k, "commands": cmds}));
+        }
     }
     e.finish(&o.out, "store", o.seed);
 }
